@@ -83,7 +83,9 @@ Proof.
         -- rewrite Hk. left. reflexivity.
 Qed.
 
-Lemma rclear_state : forall s, snd (rclear s) = rnew (rh s) (rw s) true.
+Lemma rclear_state : forall s,
+  snd (rclear s) = mkrstate (rh s) (rw s) (front s) (gmake (rh s) (rw s) cell_default)
+                            (gmake (rh s) (rw s) MDamaged).
 Proof. reflexivity. Qed.
 
 (* ---------- the invariant ---------- *)
@@ -138,18 +140,17 @@ Proof.
   - simpl. rewrite hi_h0, hi_w0. reflexivity.
 Qed.
 
-Lemma hinv_clear : forall o h w st scr, cw o space = 1 ->
-  HInv o h w st scr ->
+(* after the commands of clear(): any front buffer [fr], blank back buffer, everything Damaged *)
+Lemma hinv_clear : forall o h w st scr fr, cw o space = 1 ->
+  HInv o h w st scr -> gdims fr h w -> Good o h w (gmap (resolve o) fr) ->
   let scr' := exec_list o scr (fst (rclear st)) in
-  HInv o h w (rnew h w true) scr' /\ err scr' = false.
+  HInv o h w (mkrstate h w fr (gmake h w cell_default) (gmake h w MDamaged)) scr' /\ err scr' = false.
 Proof.
-  intros o h w st scr Hsp HI. cbv zeta.
+  intros o h w st scr fr Hsp HI Hfd Hfg. cbv zeta.
   destruct (rclear_cmds st) as [Hall Hiff].
   destruct (exec_image_erases o h w (fst (rclear st)) scr (hi_scr _ _ _ _ _ HI) Hall) as (Hs' & Hg & Hp).
   split; [|apply Hs'].
   constructor; simpl; auto.
-  - apply gdims_gmake.
-  - fold (blank_surface h w). rewrite blank_resolved. apply good_blank. auto.
   - apply good_blank. auto.
   - exists MDamaged. split; auto.
   - intros i r c. rewrite Hp. split.
@@ -253,8 +254,12 @@ Proof.
   - apply hinv_draw; auto.
   - apply hinv_frame; auto.
   - apply hinv_skip; auto.
-  - rewrite (hi_h _ _ _ _ _ HI), (hi_w _ _ _ _ _ HI). apply hinv_clear; auto.
-  - rewrite (hi_h _ _ _ _ _ HI), (hi_w _ _ _ _ _ HI). apply (hinv_clear o h w st scr); auto.
+  - rewrite (hi_h _ _ _ _ _ HI), (hi_w _ _ _ _ _ HI).
+    apply (hinv_clear o h w st scr (front st)); auto; apply HI.
+  - rewrite (hi_h _ _ _ _ _ HI), (hi_w _ _ _ _ _ HI).
+    apply (hinv_clear o h w st scr (gmake h w cell_default)); auto.
+    + apply gdims_gmake.
+    + fold (blank_surface h w). rewrite blank_resolved. apply good_blank. auto.
 Qed.
 
 Lemma run_inv : forall o h w ops st scr, cw o space = 1 ->
@@ -292,8 +297,7 @@ Proof.
     rewrite Hf in Hrest. exact Hrest.
   - cbn [rstep fst snd] in *. destruct (hinv_skip o h w st scr Hsp HI) as [_ Hf]. unfold blank_surface in Hf.
     rewrite Hf in Hrest. exact Hrest.
-  - cbn [rstep] in *. rewrite rclear_state in *.
-    rewrite (hi_h _ _ _ _ _ HI), (hi_w _ _ _ _ _ HI) in *. exact Hrest.
+  - cbn [rstep] in *. exact Hrest.
   - cbn [rstep fst snd] in *.
     rewrite (hi_h _ _ _ _ _ HI), (hi_w _ _ _ _ _ HI) in *. exact Hrest.
 Qed.
@@ -338,4 +342,23 @@ Proof.
   - intros i r c. rewrite Hp, Hp2. unfold img_cell. split.
     + intros [[H _]|H]; auto.
     + intros [H|H]; auto. left. split; auto. intros Hb. eapply img_cell_blank; eauto.
+Qed.
+
+(* the frame-dropping path of run_render: the application has drawn, then clear(), then frame(),
+   on a terminal in an arbitrary state *)
+Theorem clear_then_frame : forall o h w st scr, cw o space = 1 ->
+  rh st = h -> rw st = w -> good_surface o h w (front st) -> scr_ok scr h w ->
+  let scr1 := exec_list o scr (fst (rclear st)) in
+  let scr' := exec_list o scr1 (fst (frame o (snd (rclear st)))) in
+  sgrid scr' = sgrid (show o h w (front st)) /\ err scr' = false.
+Proof.
+  intros o h w st scr Hsp Hh Hw Hs Hscr. cbv zeta.
+  destruct (rclear_cmds st) as [Hall _].
+  destruct (exec_image_erases o h w (fst (rclear st)) scr Hscr Hall) as (Hs1 & _ & _).
+  assert (Hst : snd (rclear st) = rdraw (rnew h w true) (front st)).
+  { rewrite rclear_state, Hh, Hw. unfold rdraw. cbn [rnew rh rw front back marks].
+    destruct Hs as [Hd _]. unfold in_domain in Hd. apply andb_true_iff in Hd. destruct Hd as [Hd _].
+    rewrite Hd. reflexivity. }
+  rewrite Hst.
+  destruct (forced_repaint o h w (front st) _ Hsp Hs Hs1) as (Hg & He & _). auto.
 Qed.
